@@ -67,6 +67,8 @@ struct OSys : vf::SysBase {
       for (int i = 0; i < KN; ++i) ops.push_back({ADDNIDX, i, 0, 0});
       for (int j = 0; j < KE; ++j) for (int x = 0; x < KI; ++x) ops.push_back({SETEIDX, j, x, 0});
       for (int j = 0; j < KE; ++j) ops.push_back({ADDEIDX, j, 0, 0});
+      // a node that holds an index deleted on the subject graph itself: the observer only hears of it through the notification
+      for (int id = 0; id < NN; ++id) ops.push_back({G_DELETE, id, 0, 0});
     }
   }
   int nops() const { return (int)ops.size(); }
